@@ -49,9 +49,14 @@ def _(c):
         w2 = c.world(names={S4: {"Tle": types.SimpleNamespace(from_orbit=lambda o: calls.append(("from_orbit", o)) or tle),
                                  "twoline2rv": lambda a, b, g: calls.append(("twoline2rv", a, b, g)) or "RECORD", "wgs72": "WGS72"}})
         p2 = w2.obj(f"{S4}:Sgp4")
-        p2.orbit = "ORBIT"
+        snap = types.SimpleNamespace(tag="SNAPSHOT")
+        given = types.SimpleNamespace(tag="ORBIT", copy=lambda: snap)
+        p2.orbit = given
         dd = object.__getattribute__(p2, "__dict__")
-        c.ensure(f"setter.{len(lines)}lines", bool(dd["_orbit"] == "ORBIT" and dd["tle"] == "RECORD" and calls[-1] == ("twoline2rv", "L1", "L2", "WGS72") and calls[-2] == ("from_orbit", "ORBIT")))
+        # the propagator keeps a snapshot of the orbit it is bound to (the caller's object may be modified in place afterwards: the answers are a function of the orbit
+        # as it was handed over, C08), and the library record is built from the TLE lines of that orbit
+        c.ensure(f"setter.{len(lines)}lines", bool(dd["_orbit"] is snap and dd["tle"] == "RECORD" and calls[-1] == ("twoline2rv", "L1", "L2", "WGS72")
+                                                   and calls[-2][0] == "from_orbit" and calls[-2][1] in (given, snap)))
 
 
 def _tle_grid(tier, rng):
